@@ -82,6 +82,12 @@ FIXED = {
                     "human_mid": False, "drop_note": 0,
                     "commits": [{"session": "s1", "edits": [("f1.txt", [("insert", 0.0, 1)])]},
                                 {"session": "s2", "edits": [("f1.txt", [("insert", 0.99, 1)]), ("f2.txt", [("insert", 0.0, 1)])]}]},
+    # a later commit of the range rewrites an earlier commit's AI line (known finding
+    # slow-path-misattributes-lines-rewritten-later)
+    "overwrite-witness": {"kind": "rebase-clean", "seed": "ow", "tracked": ["f1.txt"], "base_len": 5,
+                          "human_mid": False, "drop_note": 0,
+                          "commits": [{"session": "s1", "edits": [("f1.txt", [("insert", 0.0, 2)])]},
+                                      {"session": "s2", "edits": [("f1.txt", [("overwrite", 0.99, 1)])]}]},
     # fixed in /repo c69ae45b: a tracked path containing the field name
     "field-name-path": {"kind": "rebase-clean", "seed": "fnp", "tracked": ['k"base_commit_sha":"v".txt'], "base_len": 5,
                         "human_mid": False, "drop_note": 0,
@@ -178,6 +184,21 @@ def cumulative_family(fast, slow, cum_k, cum_head, range_sessions):
         if fm.get(key) != sm.get(key):
             return False, f"{key} differs"
     return True, ""
+
+
+def rewritten_later(ghost, k):
+    """files in which an AI line of the range present at commit index k is gone (deleted or
+    overwritten) at the original head"""
+    out = set()
+    for f, lines in ghost[k].items():
+        head_texts = {l[0] for l in ghost[-1].get(f, [])}
+        if any(l[2] >= 1 and l[1] and l[0] not in head_texts for l in lines):
+            out.add(f)
+    return out
+
+
+def ghost_blame(ghost, k, f):
+    return {i: l[1] for i, l in enumerate(ghost[k].get(f, []), 1) if l[1] and l[2] >= 1}
 
 
 # ---------------------------------------------------------------- one twin scenario
@@ -329,9 +350,27 @@ def run_scenario(spec):
                     "pairs": pairs, "differing": differing, "world_commits": list(world_commits.values()),
                     "missing_note": [o for o, _ in pairs if not orig_notes.get(o)],
                     "sessions": sorted(sessions), "ncmd": env.ncmd,
+                    "ghost": [{f: [[l.text, e2e.short_hash(l.who, "mock_agent") if l.who else None, l.born] for l in ls]
+                               for f, ls in g.items()} for g in ghost],
+                    "labels": labels, "ghost_base": {f: [f"{f}-base-{i}" for i in range(spec["base_len"])] for f in tracked},
                     "ghost_cum": [sorted(triples(g, lambda l: l.born >= 1)) for g in ghost],
                     "ghost_own": [sorted(triples(g, lambda l, k=k: k and l.born == k)) for k, g in zip(labels, ghost)]})
     return obs
+
+
+def misattribution_family(fast, slow, obs, k, cum_k, cum_head):
+    """known finding slow-path-misattributes-lines-rewritten-later: the shortcut's note is exactly
+    the ghost's per-commit note, and every disagreement beyond the cumulative extras lies in a
+    file in which a later commit of the range rewrote / deleted an AI line present here."""
+    (fa, _), (sa, _) = note_view(fast), note_view(slow)
+    ft = {(p, h, l) for (p, h), ls in fa.items() for l in ls}
+    st = {(p, h, l) for (p, h), ls in sa.items() for l in ls}
+    own = set(map(tuple, obs["ghost_own"][k]))
+    if ft != own:
+        return False
+    later = set().union(*[rewritten_later(obs["ghost"], j) for j in range(k + 1)])
+    odd = (ft - st) | (st - ft - cum_k - cum_head)
+    return bool(odd) and all(p in later for (p, _, _) in odd)
 
 
 # ---------------------------------------------------------------- verdicts
@@ -387,11 +426,32 @@ def judge(res, obs, driver_reqs):
             if obs["orig_notes"].get(o) and fast["notes"].get(n) is not None:
                 driver_reqs.append(({"op": "c15_remap", "text": obs["orig_notes"][o], "target": n, "reser": None},
                                     ("remap", fast["notes"][n], dict(wit, original=o, new=n))))
+    # ghost reference model of both line sets (Lean perCommitLines / slowLines) vs the two binaries'
+    # notes; its domain: precondition holds and no AI line of the range is rewritten later
+    append_only = obs["ghost"] and not any(rewritten_later(obs["ghost"], j) for j in range(len(obs["ghost"])))
+    if pre and took and append_only and len(obs["ghost"]) == len(fast["news"]) == len(slow["news"]):
+        tags.append("e2e:line-model=compared")
+        gl = lambda g: [{"path": f, "lines": [[l[1], l[2]] for l in ls]} for f, ls in sorted(g.items())]
+        prev, changed = {f: v for f, v in obs["ghost_base"].items()}, set()
+        for k, g in enumerate(obs["ghost"]):
+            for f, ls in g.items():
+                if [l[0] for l in ls] != prev.get(f):
+                    changed.add(f)
+                prev[f] = [l[0] for l in ls]
+            def trip(t):
+                pn = e2e.parse_note(t) if t else None
+                return sorted([p, h, l] for p, hs in (pn["files"].items() if pn else []) for h, ls in hs.items() for l in set(ls))
+            driver_reqs.append(({"op": "c15_lines", "k": obs["labels"][k], "tree": gl(g), "head": gl(obs["ghost"][-1]),
+                                 "changed": sorted(changed)},
+                                ("lines", (trip(fast["notes"].get(fast["news"][k])), trip(slow["notes"].get(slow["news"][k]))),
+                                 dict(wit, index=k))))
+    else:
+        tags.append("e2e:line-model=outside-domain")
     # ---- notes under ≈ and blame equivalence
     if len(fast["news"]) != len(slow["news"]):
         res.oracle_failure("twin-histories-differ", wit, "the rewritten histories differ between the twins")
         res.tag(tags); return
-    n_equiv = n_cum = 0
+    n_equiv = n_cum = n_mis = 0
     head_cum = set(map(tuple, obs["ghost_cum"][-1])) if obs["ghost_cum"] else set()
     for k, (nf, ns) in enumerate(zip(fast["news"], slow["news"])):
         tf, ts = fast["notes"].get(nf), slow["notes"].get(ns)
@@ -417,17 +477,31 @@ def judge(res, obs, driver_reqs):
             n_cum += 1
             res.oracle_failure("slow-path-cumulative-lines", w2,
                                "shortcut note (per-commit lines) differs under ≈ from the replayed note (cumulative lines)")
+        elif pf and ps and k < len(obs["ghost"]) and misattribution_family(pf, ps, obs, k, cum_k, head_cum):
+            n_mis += 1
+            res.oracle_failure("slow-path-misattributes-lines-rewritten-later", w2,
+                               "the replayed note takes the session of a line that a later commit of the range rewrote or "
+                               "deleted from the original head state; the shortcut's note is the correct per-commit note")
         else:
             res.oracle_failure("shortcut-differs-from-replay", dict(w2, why=why),
                                "the shortcut's note is not ≈ to the replayed note, and not in the cumulative-lines family: " + why)
-    tags.append(f"e2e:notes={'all-equiv' if n_cum == 0 else 'cumulative-diff'}")
+    tags.append(f"e2e:notes={'misattributed-diff' if n_mis else ('all-equiv' if n_cum == 0 else 'cumulative-diff')}")
     bl_same = True
     for fk, bf in fast["blame"].items():
         bs = slow["blame"].get(fk)
         if bf != bs:
             bl_same = False
-            res.oracle_failure("shortcut-blame-differs", dict(wit, file=fk, fast_blame=bf, slow_blame=bs),
-                               "git-ai blame differs between the shortcut's notes and the replayed notes")
+            k, f = int(fk.split(":", 1)[0]), fk.split(":", 1)[1]
+            w3 = dict(wit, file=fk, fast_blame=bf, slow_blame=bs)
+            # the range rewrote an AI line of this file later; the shortcut's blame is the ghost truth from commit k on
+            later = set().union(*[rewritten_later(obs["ghost"], j) for j in range(min(k + 1, len(obs["ghost"])))]) if obs["ghost"] else set()
+            if took and k < len(obs["ghost"]) and f in later and {int(a): b for a, b in bf.items()} == ghost_blame(obs["ghost"], k, f):
+                res.oracle_failure("slow-path-misattributes-lines-rewritten-later", w3,
+                                   "blame through the replayed notes credits the wrong session for a line that a later commit of "
+                                   "the range rewrote; blame through the shortcut's notes is correct")
+            else:
+                res.oracle_failure("shortcut-blame-differs", w3,
+                                   "git-ai blame differs between the shortcut's notes and the replayed notes")
             break
     tags.append(f"e2e:blame={'same' if bl_same else 'differs'}")
     # ghost check of what both twins say (statistic; C02's concern)
@@ -449,10 +523,16 @@ def resolve_driver(res, driver_reqs):
     if not driver_reqs:
         return
     resp = C.run_driver([r for r, _ in driver_reqs])
-    bad_path = bad_remap = 0
+    bad_path = bad_remap = bad_lines = n_lines = 0
     first = None
     for (req, (what, observed, wit)), m in zip(driver_reqs, resp):
-        if what == "path":
+        if what == "lines":
+            n_lines += 1
+            ok = sorted(m.get("per_commit", [None])) == observed[0] and sorted(m.get("slow", [None])) == observed[1]
+            if not ok:
+                bad_lines += 1
+                first = first or {"kind": "lines", "model": m, "observed": {"shortcut": observed[0], "replay": observed[1]}, "witness": wit}
+        elif what == "path":
             ok = m.get("applies") == observed
             if not ok:
                 bad_path += 1
@@ -464,8 +544,11 @@ def resolve_driver(res, driver_reqs):
                 first = first or {"kind": "remap", "model": m.get("text"), "observed": observed, "witness": wit}
     res.obligation("e2e correspondence: model fastPathApplies = shortcut marker observed", bad_path == 0, "correspondence")
     res.obligation("e2e correspondence: note written by the shortcut = model remapNote(original note, new sha)", bad_remap == 0, "correspondence")
+    res.obligation("e2e correspondence: line sets of the shortcut's / the replayed notes = model perCommitLines / slowLines "
+                   "(append-only histories)", bad_lines == 0, "correspondence")
     res.extra.setdefault("correspondence", {})["e2e"] = {"compared": len(driver_reqs), "path_disagreements": bad_path,
-                                                        "remap_disagreements": bad_remap}
+                                                        "remap_disagreements": bad_remap, "line_sets_compared": n_lines,
+                                                        "line_set_disagreements": bad_lines}
     if first:
         res.broken_tie("e2e model-vs-binary", first)
 
@@ -512,6 +595,17 @@ def corpus_specs():
     return out
 
 
+def finish(res):
+    sigs = {}
+    for v in res.violations:
+        src = "e2e" if isinstance(v.get("witness"), dict) and "spec" in v["witness"] else "in-process"
+        sigs[f"{src}:{v['sig']}"] = sigs.get(f"{src}:{v['sig']}", 0) + 1
+    res.extra["violation_sigs"] = sigs
+    if sigs:
+        C.log(f"[{PROP}] violation signatures: {sigs}")
+    return res.finish()
+
+
 def run(tier, seed):
     res = C.Result(PROP, tier, seed)
     res.rule = ("in-process: generated note texts (serializer output for logs whose paths / prompt texts / bases contain the "
@@ -538,12 +632,12 @@ def run(tier, seed):
     if not ok:
         res.obligation("build harness against the repository working tree", False, "build")
         res.broken_tie("harness build", out[-3000:])
-        return res.finish()
+        return finish(res)
     ok, out = C.build_git_ai()
     if not ok:
         res.obligation("build git-ai against the repository working tree", False, "build")
         res.broken_tie("git-ai build", out[-3000:])
-        return res.finish()
+        return finish(res)
     quick = tier == "quick"
     corpus = os.path.join(C.VERIF, "corpus", PROP, "cases.jsonl")
     bad1, _ = C.phase_suite(res, "c15", seed, 4000 if quick else 100000, corpus)
@@ -564,4 +658,4 @@ def run(tier, seed):
             run_e2e(res, specs_for(seed + 7777, 72))
         res.extra["search"] = ("4 extra seeds x (20000 remap + 3000 scratch-repository cases) and 72 extra twin scenarios, "
                                "all oracles evaluated on the implementation")
-    return res.finish()
+    return finish(res)
